@@ -1,0 +1,13 @@
+// Copyright Suneido Software Corp. All rights reserved.
+// Governed by the MIT license found in the LICENSE file.
+
+//go:build !verif
+
+package db19
+
+// Verification hooks, see verif_on.go.
+// Without the verif build tag these are empty and are inlined away.
+
+func verifOnUpdate(_, _ *DbState) {}
+
+func verifPoint(string, any) {}
